@@ -103,3 +103,11 @@ def check(facts, rep, tier, cfg):
                 else:
                     rep.ok("C12.R3", "private/%s.%s" % (adt.split("::")[-1], fld["name"]), adt, "not pub", nontrivial=False)
     rules_c03.check_r1(facts, rep, crate, takes)
+    rep.rule("C12.R4", "credit = grants - frames: the take succeeds only through the CAS decrement (= C03.R2): no Ready(Some) exit of the "
+                       "credit-take function bypasses it, including the re-check after AtomicWaker::register")
+    sub = type(rep)(rep.prop, rep.tier, rep.config)
+    rules_c03.check_r2(facts, sub, crate, takes)
+    for i in sub.instances:
+        rep.ok("C12.R4", i["key"], i["where"], i["detail"], nontrivial=False)
+    for v in sub.violations:
+        rep.bad("C12.R4", v["key"].split("/", 1)[1], v["where"], v["msg"])
